@@ -92,6 +92,7 @@ def run(args):
         reqs.append({"op": "run", "id": len(reqs), "a": a})
         meta.append((i, label, backend))
 
+    not_accepted = []
     for i, (it, r) in enumerate(zip(items, rts)):
         label, feat, src, host, case, prog = it
         rep.count()
@@ -124,7 +125,9 @@ def run(args):
             elif x.get("a2") != x["a1"]:
                 rep.fail(dict(feat, kind="printing-is-no-fixed-point", form="analyzed"), {"program": src[:3000], "first": x["a1"][:3000], "second": x["a2"][:3000]})
         elif prog is not None or feat.get("family") == "forms-file":
-            raise C.Machinery("program %s is not accepted: %s" % (label, x.get("a1_errs", [])[:2]))
+            # (not this property's business - C03 decides acceptance - but nothing may be skipped silently: the run is
+            # inconclusive unless the other programs show a violation of this property)
+            not_accepted.append("program %s is not accepted: %s" % (label, x.get("a1_errs", [])[:2]))
         if not x["accepted"]:
             continue
         # (3) behaviour
@@ -164,6 +167,9 @@ def run(args):
     linked(rep, pool, thorough)
     for it in rnd.sample(items, 3):
         rep.sample({"label": it[0], "program": it[2][:300]})
+    if not_accepted and not rep.violations:
+        raise C.Machinery(not_accepted[0])
+    rep.notes["generated_programs_not_accepted"] = not_accepted[:5]
     return rep.finish()
 
 
